@@ -1,6 +1,7 @@
 import ConfModel.Driver.Common
 import ConfModel.Model.Echo
 import ConfModel.Spec.EchoAgree
+import ConfModel.Model.EchoLoad
 namespace ConfModel.Driver.C02
 open Lean ConfModel.Driver ConfModel.Echo
 
@@ -14,6 +15,24 @@ def errIn (j : Json) : Option Err :=
 def stOf : String → ST
   | "unary" => .unary | "clientStream" => .clientStream | "serverStream" => .serverStream
   | "halfDuplex" => .halfDuplex | _ => .fullDuplex
+
+def infoOf (j : Json) : Option ReqInfo :=
+  if isNull j then none else
+    some ⟨hdrs (field j "hdrs"), (intList (field j "reqs")).map (fun i => if i < 0 then 1000000 else i.toNat),
+          hdrs (field j "query")⟩
+
+def detailOf (j : Json) : Detail :=
+  if !(isNull (field j "info")) then .info ((infoOf (field j "info")).getD ⟨[], [], []⟩)
+  else .other (let i := int (field j "other"); if i < 0 then 1000000 else i.toNat)
+
+def errOut (j : Json) : Option Err :=
+  if isNull j then none else
+    some ⟨nat (field j "code"), (if isNull (field j "msg") then none else some (str (field j "msg"))),
+          (arr (field j "details")).map detailOf⟩
+
+def resultOf (j : Json) : Result :=
+  ⟨hdrs (field j "hdrs"), hdrs (field j "trls"),
+   (arr (field j "payloads")).map (fun p => ⟨str (field p "data"), infoOf (field p "info")⟩), errOut (field j "err")⟩
 
 def tcOf (j : Json) : TC :=
   let st := stOf (str (field j "st"))
@@ -33,28 +52,19 @@ def tcOf (j : Json) : TC :=
   let sdef : Option StreamDef :=
     if hasDef && !(st == .unary || st == .clientStream) then some ⟨dh, dt, data, errIn (field d "err")⟩ else none
   { st := st, reqHdrs := hdrs (field j "reqHdrs"), reqs := natList (field j "reqs"), udef := udef, sdef := sdef,
-    fdFlag := bool (field j "fdFlag") }
-
-def infoOf (j : Json) : Option ReqInfo :=
-  if isNull j then none else some ⟨hdrs (field j "hdrs"), (intList (field j "reqs")).map (fun i => if i < 0 then 1000000 else i.toNat)⟩
-
-def detailOf (j : Json) : Detail :=
-  if !(isNull (field j "info")) then .info ((infoOf (field j "info")).getD ⟨[], []⟩)
-  else .other (let i := int (field j "other"); if i < 0 then 1000000 else i.toNat)
-
-def errOut (j : Json) : Option Err :=
-  if isNull j then none else
-    some ⟨nat (field j "code"), (if isNull (field j "msg") then none else some (str (field j "msg"))),
-          (arr (field j "details")).map detailOf⟩
-
-def resultOf (j : Json) : Result :=
-  ⟨hdrs (field j "hdrs"), hdrs (field j "trls"),
-   (arr (field j "payloads")).map (fun p => ⟨str (field p "data"), infoOf (field p "info")⟩), errOut (field j "err")⟩
+    fdFlag := bool (field j "fdFlag"),
+    get := bool (field j "get"),
+    -- `populateExpectedUnaryResponse`: CODEC_JSON (2) or anything else
+    codec := if nat (field j "codec") == 2 then .json else .proto,
+    method := (match str (field j "method") with
+      | "idempotent" => .idempotent | "unimplemented" => .unimplemented | _ => .std),
+    explicit := if isNull (field j "explicit") then none else some (resultOf (field j "explicit")) }
 
 def hdrJ (h : Hdr) : Json := Json.mkObj [("n", h.name), ("v", toJson h.vals)]
 def infoJ : Option ReqInfo → Json
   | none => Json.null
-  | some ri => Json.mkObj [("hdrs", Json.arr (ri.hdrs.map hdrJ).toArray), ("reqs", toJson ri.reqs)]
+  | some ri => Json.mkObj [("hdrs", Json.arr (ri.hdrs.map hdrJ).toArray), ("reqs", toJson ri.reqs),
+      ("query", Json.arr (ri.query.map hdrJ).toArray)]
 def resultJ (r : Result) : Json :=
   Json.mkObj [("hdrs", Json.arr (r.hdrs.map hdrJ).toArray), ("trls", Json.arr (r.trls.map hdrJ).toArray),
     ("payloads", Json.arr (r.payloads.map (fun p => Json.mkObj [("data", p.data), ("info", infoJ p.info)])).toArray),
@@ -65,42 +75,127 @@ def resultJ (r : Result) : Json :=
             | .other i => Json.mkObj [("other", i)]
             | .info ri => Json.mkObj [("info", infoJ (some ri))])).toArray)])]
 
-/-- the identity transport (the model's own rendering of what the peers deliver) -/
-def idWire (tc : TC) : Wire := ⟨tc.reqHdrs, id, id, fun h t => mergeHeaders h t⟩
+/-- the parameters of the GET request line the expectation speaks about -/
+def callQuery (tc : TC) : List Hdr := [⟨"encoding", [tc.codec.encoding]⟩, ⟨"connect", ["v1"]⟩]
+
+/-- the transport as the model renders it for a run: metadata delivered as set, and query parameters
+exactly when the call is made with GET — both reference clients choose by the method, and only the
+idempotent method (over the Connect protocol, the only one suite VG lists) goes out as a GET -/
+def idWire (tc : TC) : Wire :=
+  ⟨tc.reqHdrs, id, id, fun h t => mergeHeaders h t, if tc.method == .idempotent then callQuery tc else [], "not implemented"⟩
+
+def has (s sub : String) : Bool := (s.splitOn sub).length > 1
+
+/-- the test case of a permutation: from suite V or VG, under the permutation's codec -/
+def permCase (cases getCases : List TC) (p : Json) : Option TC :=
+  (if bool (field p "g") then getCases[nat (field p "case")]? else cases[nat (field p "case")]?).map
+    (fun tc => { tc with codec := if nat (field p "codec") == 2 then .json else .proto })
+
+/-- what the model says about the verdict of a permutation whose expectation is `e`:
+`some true` = passes whichever way error metadata is delivered, `some false` = fails either way -/
+def predicted (tc : TC) (e : Result) : Option Bool :=
+  let a := agree tc.st e (actual tc (idWire tc) false)
+  let b := agree tc.st e (actual tc (idWire tc) true)
+  if a && b then some true else if !a && !b then some false else none
+
+/-- the peers' model against a captured client response (the wording of an `unimplemented` error is
+the RPC library's: not compared).  Query parameters: echoed exactly for the calls that go out as GET,
+and then they contain what the expectation lists. -/
+def actualMatches (tc : TC) (a : Result) : Bool :=
+  let m := actual tc (idWire tc) false
+  let m := if tc.method == .unimplemented then { m with err := m.err.map (fun e => { e with msg := none }) } else m
+  agree tc.st m a &&
+  (let qs := (infosOf a).map (·.query)
+   if tc.method == .idempotent then qs.all (fun q => !q.isEmpty && subsumed (callQuery tc) q)
+   else qs.all (·.isEmpty))
 
 def judgeE2E (inp impl : Json) : Verdict :=
     if !(isNull (field impl "panic")) then
       { agree := false, holds := false, why := "panic during the run: " ++ str (field impl "panic") } else
     let cases := (arr (field inp "cases")).map tcOf
+    let getCases := (arr (field inp "getCases")).map tcOf
     let perms := arr (field impl "perms")
-    let wf := cases.all (fun tc => WellFormed tc)
-    -- property: every permutation of every well-formed case passes
-    let failing0 := perms.filter (fun p => str (field p "verdict") != "pass")
+    let wf := (cases ++ getCases).all (fun tc => WellFormed tc)
+    -- the generator's hint "wrong on purpose" must be the model's prediction (it only saves re-runs)
+    let hintOk := (arr (field inp "cases") ++ arr (field inp "getCases")).all (fun j =>
+      let tc := tcOf j
+      let both := [Codec.proto, Codec.json].map (fun c => let t := { tc with codec := c }; (populate t).bind (predicted t))
+      if bool (field j "xfail") then both.all (· == some false) else both.all (· == some true) || tc.explicit.isNone)
+    if !hintOk then bad "xfail hint of a case differs from the model's prediction" else
+    -- property: every permutation of every well-formed case passes; a case that gives its expected
+    -- response itself gets the verdict that response deserves (it is used as given)
+    let failing0 := perms.filter (fun p =>
+      let pass := str (field p "verdict") == "pass"
+      match permCase cases getCases p with
+      | none => !pass
+      | some tc =>
+        match tc.explicit with
+        | none => !pass
+        | some e => (match predicted tc e with | some v => pass != v | none => false))
     -- known finding F22 (schedule-dependent): the grpc-go reference server behind the grpc-web
     -- wrapper over HTTP/1.1 intermittently fails a call with "http: invalid Read on closed Body"
     let isF22 (p : Json) : Bool :=
       let n := str (field p "name")
-      (n.splitOn "HTTPVersion:1/Protocol:PROTOCOL_GRPC_WEB/").length > 1 && (n.splitOn "(grpc server impl)").length > 1 &&
-        ((str (field p "why")).splitOn "http: invalid Read on closed Body").length > 1
+      has n "HTTPVersion:1/Protocol:PROTOCOL_GRPC_WEB/" && has n "(grpc server impl)" &&
+        has (str (field p "why")) "http: invalid Read on closed Body"
     let onlyF22 := !failing0.isEmpty && failing0.all isF22
     let failing := failing0
     -- correspondence: what the wrapped reference client reported is what the model of the peers says
     let disagree := perms.filter (fun p =>
       let a := field p "actual"
       if isNull a || isF22 p then false else
-        match cases[nat (field p "case")]? with
+        match permCase cases getCases p with
         | none => true
-        | some tc => !(agree tc.st (actual tc (idWire tc) false) (resultOf a)))
+        | some tc => !(actualMatches tc (resultOf a)))
+    -- the permutations of suite VG: Connect only (no gRPC peer takes part), every version x codec x
+    -- relevant compression (full-duplex cases not over HTTP/1.1)
+    let nv := (natList (field inp "versions")).length
+    let nv1 := ((natList (field inp "versions")).filter (· != 1)).length
+    let nz := if (natList (field inp "getComps")).isEmpty then (natList (field inp "compressions")).length
+              else ((natList (field inp "getComps")).filter (fun z => (natList (field inp "compressions")).contains z)).length
+    let nc := (natList (field inp "codecs")).length
+    let gPerms := perms.filter (fun p => bool (field p "g"))
+    let gWant := (getCases.map (fun tc => (if tc.st == .fullDuplex then nv1 else nv) * nc * nz)).foldl (· + ·) 0
+    let gOk := gPerms.length == gWant && gPerms.all (fun p => !(has (str (field p "name")) "(grpc"))
     let runErr := str (field impl "runErr")
-    let holds := failing.isEmpty && (!perms.isEmpty || cases.isEmpty)
-    { agree := disagree.isEmpty && (runErr == "" || !failing.isEmpty), holds := holds || !wf, nontrivial := perms.length > 1,
-      model := Json.mkObj [("perms", perms.length), ("disagree", disagree.length)],
-      cls := str (field inp "mode"),
+    let holds := failing.isEmpty && (!perms.isEmpty || (cases ++ getCases).isEmpty)
+    { agree := disagree.isEmpty && gOk && (runErr == "" || !failing.isEmpty), holds := holds || !wf, nontrivial := perms.length > 1,
+      model := Json.mkObj [("perms", perms.length), ("disagree", disagree.length), ("getPerms", gWant)],
+      cls := str (field inp "mode") ++ (if getCases.isEmpty then "" else "+get"),
       why := if !holds then
-          (if onlyF22 then "F22: " else "") ++ "permutations of well-formed cases fail: " ++ toString ((failing.take 3).map (fun p => str (field p "name") ++ " :: " ++ str (field p "why"))) ++ " runErr=" ++ runErr
+          (if onlyF22 then "F22: " else "") ++ "permutations of well-formed cases fail (or pass against a wrong explicit expectation): " ++ toString ((failing.take 3).map (fun p => str (field p "name") ++ " :: " ++ str (field p "verdict") ++ " :: " ++ str (field p "why"))) ++ " runErr=" ++ runErr
         else if !disagree.isEmpty then
           "reported result differs from the model of the peers: " ++ toString ((disagree.take 2).map (fun p => str (field p "name") ++ " actual=" ++ (field p "actual").compress))
+        else if !gOk then s!"suite VG: {gPerms.length} permutations, the model expects {gWant} and none against a gRPC peer"
         else "" }
+
+/-! ### the load half: suites described by shape -/
+
+def msgOf : String → EchoLoad.Msg
+  | "unary" => .unary | "idempotent" => .idempotent | "clientStream" => .clientStream
+  | "serverStream" => .serverStream | "bidi" => .bidi | "unimplemented" => .unimplemented
+  | "other" => .other | _ => .broken
+
+def dirOf : String → EchoLoad.Dir
+  | "fits" => .fits | "misfit" => .misfit | _ => .absent
+
+def lcaseOf (j : Json) : EchoLoad.Case :=
+  { name := str (field j "name"), st := nat (field j "st"), service := bool (field j "service"), method := bool (field j "method"),
+    msgs := (strList (field j "msgs")).map msgOf, rawRequest := bool (field j "rawRequest"),
+    rawResponse := bool (field j "rawResponse"), explicit := bool (field j "explicit"),
+    expand := (strList (field j "expand")).map dirOf }
+
+def lsuiteOf (j : Json) : EchoLoad.Suite :=
+  { name := str (field j "name"), mode := nat (field j "mode"), protos := natList (field j "protos"),
+    codecs := natList (field j "codecs"), tls := bool (field j "tls"), certs := bool (field j "certs"),
+    get := bool (field j "get"), cvm := nat (field j "cvm"), cases := (arr (field j "cases")).map lcaseOf }
+
+def popCaseOf (j : Json) : EchoLoad.Case :=
+  { name := "p", st := nat (field j "st"), service := false, method := false,
+    msgs := (strList (field j "msgs")).map msgOf, rawRequest := false, rawResponse := false,
+    explicit := bool (field j "explicit"), expand := [] }
+
+def allCases (inp : Json) : List TC := ((arr (field inp "cases")) ++ (arr (field inp "getCases"))).map tcOf
 
 def handle : Handler := fun op inp impl =>
   match op with
@@ -108,25 +203,84 @@ def handle : Handler := fun op inp impl =>
     let tc := tcOf inp
     if !(isNull (field impl "panic")) then
       { agree := false, holds := false, why := "panic while deriving the expectation: " ++ str (field impl "panic") } else
-    if str (field impl "err") != "" then
-      -- the repaired generator never rejects a case of this family
-      { agree := false, holds := true, why := "generator returned an error" } else
-    let r := resultOf (field impl "result")
-    let m := expected tc
-    { agree := r == m, holds := true, nontrivial := tc.udef.isSome || tc.sdef.isSome, model := resultJ m,
-      cls := str (field inp "st") }
+    let m := populate tc
+    let implErr := str (field impl "err") != ""
+    match m with
+    | none =>
+      -- nothing can be derived (the first request message defines no response) and nothing is given
+      { agree := implErr, holds := true, nontrivial := true, model := Json.mkObj [("err", "rejected")],
+        cls := str (field inp "st") ++ ":rejected", why := if implErr then "" else "generator accepted a case the model rejects" }
+    | some m =>
+      if implErr then { agree := false, holds := true, why := "generator returned an error" } else
+      let r := resultOf (field impl "result")
+      { agree := r == m, holds := true, nontrivial := tc.udef.isSome || tc.sdef.isSome || tc.explicit.isSome, model := resultJ m,
+        cls := str (field inp "st") ++ (if tc.explicit.isSome then ":explicit" else if tc.get then ":get" else "") }
+  | "libexpected" =>
+    if !(isNull (field impl "panic")) then
+      { agree := false, holds := false, why := "panic while loading the suites: " ++ str (field impl "panic") } else
+    let cases := (arr (field inp "cases")).map tcOf
+    let getCases := (arr (field inp "getCases")).map tcOf
+    let implErr := str (field impl "err") != ""
+    -- a case nothing can be derived for makes the whole load fail (every case of these inputs has
+    -- permutations under the config)
+    let rejected := (cases ++ getCases).any (fun tc => (populate tc).isNone)
+    if rejected || implErr then
+      { agree := rejected == implErr, holds := true, nontrivial := true, cls := "rejected",
+        why := if rejected == implErr then "" else "load verdict differs from the model (a case without a derivable or given expectation must be rejected, and only that)" } else
+    let perms := arr (field impl "perms")
+    let wrong := perms.filter (fun p =>
+      match permCase cases getCases p with
+      | none => true
+      | some tc =>
+        let wantMethod := match tc.method, tc.st with
+          | .idempotent, _ => "IdempotentUnary" | .unimplemented, _ => "Unimplemented"
+          | .std, .unary => "Unary" | .std, .clientStream => "ClientStream" | .std, .serverStream => "ServerStream"
+          | .std, _ => "BidiStream"
+        !(populate tc == (if isNull (field p "expected") then none else some (resultOf (field p "expected"))) &&
+          bool (field p "get") == tc.get && str (field p "method") == wantMethod &&
+          str (field p "service") == "connectrpc.conformance.v1.ConformanceService"))
+    { agree := wrong.isEmpty && !perms.isEmpty, holds := true, nontrivial := true, cls := str (field inp "mode"),
+      model := Json.mkObj [("perms", perms.length)],
+      why := if wrong.isEmpty then "" else
+        "expectation (or method) stored in the library differs from the model: " ++ toString ((wrong.take 2).map (fun p => str (field p "name") ++ " expected=" ++ (field p "expected").compress)) }
   | "load" =>
     let p := !(isNull (field impl "panic"))
-    { agree := true, holds := !p, nontrivial := true, cls := str (field impl "class"),
-      why := if p then "loading a parseable suite crashed the runner: " ++ str (field impl "panic") else "" }
+    let shapes := arr (field inp "shapes")
+    if shapes.isEmpty then
+      { agree := true, holds := !p, nontrivial := true, cls := str (field impl "class"),
+        why := if p then "loading a parseable suite crashed the runner: " ++ str (field impl "panic") else "" }
+    else
+      -- the model of the validation says whether this input is rejected (and by which branch, if the
+      -- files are visited in the order given)
+      let mode := match str (field inp "mode") with | "client" => 1 | "server" => 2 | _ => 0
+      let m := EchoLoad.loadErr EchoLoad.cfgApplies mode (shapes.map lsuiteOf)
+      let want := match m with | none => "ok" | some _ => "error"
+      { agree := !p && str (field impl "class") == want, holds := !p, nontrivial := m.isSome,
+        model := Json.mkObj [("class", want), ("branch", match m with | none => "" | some e => toString (repr e))],
+        cls := (match m with | none => "accepted" | some e => "rejected:" ++ toString (repr e)),
+        why := if p then "loading a parseable suite crashed the runner: " ++ str (field impl "panic")
+          else if str (field impl "class") == want then "" else "load verdict " ++ str (field impl "class") ++ ", the model of the validation says " ++ want }
+  | "populate" =>
+    let p := !(isNull (field impl "panic"))
+    let c := popCaseOf inp
+    let m := EchoLoad.populateDirect c
+    let want := match m with | none => "ok" | some _ => "error"
+    { agree := !p && str (field impl "class") == want, holds := !p, nontrivial := m.isSome,
+      model := Json.mkObj [("class", want)],
+      cls := (match m with | none => "accepted" | some e => "rejected:" ++ toString (repr e)),
+      why := if p then "deriving the expectation crashed: " ++ str (field impl "panic")
+        else if str (field impl "class") == want then "" else "generator verdict " ++ str (field impl "class") ++ ", the model says " ++ want }
   | "e2e" =>
     -- the main stream must not contain the shape of known finding F07 (it has its own op)
-    if ((arr (field inp "cases")).map tcOf).any isF07 then bad "F07-shaped case in the e2e stream" else
-    if str (field inp "mode") == "client" && ((arr (field inp "cases")).map tcOf).any isF27 then bad "F27-shaped case in the client-mode e2e stream" else
+    if (allCases inp).any isF07 then bad "F07-shaped case in the e2e stream" else
+    if str (field inp "mode") == "client" && (allCases inp).any isF27 then bad "F27-shaped case in the client-mode e2e stream" else
+    -- nor the shape of F31: a GET call under a compression, against the reference-mode reference server
+    if str (field inp "mode") != "server" && (allCases inp).any (·.method == .idempotent) && natList (field inp "getComps") != [1] then
+      bad "F31-shaped permutations (GET with compression against the reference-mode server) in the e2e stream" else
     judgeE2E inp impl
   | "e2e-f07" =>
     -- only F07-shaped cases: full-duplex, no responses, an error, >= 2 requests
-    if !(((arr (field inp "cases")).map tcOf).all isF07) then bad "e2e-f07 input contains a case outside the F07 shape" else
+    if !((allCases inp).all isF07) then bad "e2e-f07 input contains a case outside the F07 shape" else
     let v := judgeE2E inp impl
     -- every failure of this op must be the F07 symptom and nothing else
     let perms := arr (field impl "perms")
@@ -136,16 +290,29 @@ def handle : Handler := fun op inp impl =>
     else { v with holds := false, why := "failure other than the F07 symptom: " ++ toString ((other.take 2).map (fun p => str (field p "name") ++ " :: " ++ str (field p "why"))) }
   | "e2e-f27" =>
     -- only F27-shaped cases (empty request stream), mode client
-    if !(((arr (field inp "cases")).map tcOf).all isF27) || str (field inp "mode") != "client" then bad "e2e-f27 input outside the F27 shape" else
+    if !((allCases inp).all isF27) || str (field inp "mode") != "client" then bad "e2e-f27 input outside the F27 shape" else
     let v := judgeE2E inp impl
     -- every failure of this op must be the F27 symptom (grpc-go's own HTTP/2 server, gRPC, timed out) and nothing else
     let perms := arr (field impl "perms")
-    let has (s sub : String) : Bool := (s.splitOn sub).length > 1
     let other := perms.filter (fun p => str (field p "verdict") != "pass" &&
       !(has (str (field p "name")) "HTTPVersion:2/Protocol:PROTOCOL_GRPC/" && has (str (field p "name")) "(grpc server impl)" &&
         has (str (field p "why")) "timed out waiting for result from client"))
     if other.isEmpty then { v with why := if v.holds then "" else "F27: " ++ v.why }
     else { v with holds := false, why := "failure other than the F27 symptom: " ++ toString ((other.take 2).map (fun p => str (field p "name") ++ " :: " ++ str (field p "why"))) }
+  | "e2e-f31" =>
+    -- suite VG only, under identity and one more compression, against the reference-mode reference server
+    if !(arr (field inp "cases")).isEmpty || str (field inp "mode") == "server" then bad "e2e-f31 input outside the F31 shape" else
+    let v := judgeE2E inp impl
+    -- every failure of this op must be the F31 symptom — a GET call of a permutation with a
+    -- compression, reported by the reference server as sent uncompressed — and nothing else
+    let getCases := (arr (field inp "getCases")).map tcOf
+    let perms := arr (field impl "perms")
+    let other := perms.filter (fun p => str (field p "verdict") != "pass" &&
+      !(!(has (str (field p "name")) "Compression:COMPRESSION_IDENTITY/") &&
+        ((permCase [] getCases p).map (·.method == .idempotent)).getD false &&
+        (str (field p "why")).startsWith "expected compression " && (str (field p "why")).endsWith "; instead got identity"))
+    if other.isEmpty then { v with why := if v.holds then "" else "F31: " ++ v.why }
+    else { v with holds := false, why := "failure other than the F31 symptom: " ++ toString ((other.take 2).map (fun p => str (field p "name") ++ " :: " ++ str (field p "why"))) }
   | _ => bad ("unknown op " ++ op)
 
 end ConfModel.Driver.C02
